@@ -20,6 +20,45 @@ const EXPECT: [K1; 6] = [K1::InvalidPrefix, K1::InvalidProtocol, K1::InvalidSour
 /// Judges one corrupted v1 line through the byte, text and auto-detecting entry points.
 /// `expect = None`: only "terminal, not accepted" is demanded.
 fn judge_v1(line: &[u8], element: &str, expect: Option<K1>, rec: &mut Recorder) {
+    judge_v1_at(line, element, expect, rec);
+    // one case in four once more the way a server sees it: in a receive buffer that held an
+    // unfinished CR-free line of other content (reaching beyond this line's CR) when it was
+    // refilled, and followed by payload - a long CR-free one, a non-UTF-8 one, or a second line.
+    // The single corrupted element and therefore the expected verdict are the same.
+    let hsh = hash_bytes(line);
+    if spec::engine::small() || hsh % 4 != 0 {
+        return;
+    }
+    if let Some(p) = line.iter().position(|&b| b == b'\r') {
+        if p + 2 < 106 && p + 2 <= line.len() {
+            let n = p + 3 + ((hsh >> 8) as usize) % (106 - (p + 2));
+            let fill = vec![b'A'; n];
+            let mut full = line.to_vec();
+            match (hsh >> 20) % 3 {
+                0 => full.extend(std::iter::repeat(b'x').take(130)),
+                1 => full.extend_from_slice(&[0x16, 0x03, 0x01, 0xFF, 0xFE, 0x80, 0xC3, 0x28, 0xA0, 0xA1, 0xE2, 0x28, 0xF0, 0x90]),
+                _ => {
+                    full.extend(std::iter::repeat(b'y').take(106usize.saturating_sub(p + 2)));
+                    full.extend_from_slice(b"\r\nGET / HTTP/1.1\r\n");
+                }
+            }
+            let items = [fill, full];
+            let mut first = true;
+            spec::engine::placed_seq(&items, hsh >> 4, |y| {
+                if first {
+                    first = false;
+                    let _ = v1_bytes(y);
+                    let _ = auto_parse(y);
+                    rec.events(2);
+                } else {
+                    judge_v1_at(y, element, expect, rec);
+                }
+            });
+        }
+    }
+}
+
+fn judge_v1_at(line: &[u8], element: &str, expect: Option<K1>, rec: &mut Recorder) {
     rec.case(hash_bytes(line), true);
     rec.class(&format!("oracle:v1-corrupt-{}", element), || show(line, 120));
     let mut outs: Vec<(&str, O1)> = vec![("v1-bytes", v1_bytes(line))];
